@@ -59,6 +59,8 @@ def run(ctx):
                '' if ok else '`%s` runs before the objects are saved: if a save raises (key conflict found by the database) the session looks clean, '
                'later flush/commit return early and the session commits the part that was flushed before the conflict' % head(c.ast), node=c.ast)
     # ---------------------------------------------------------------- DBKEY
+    from . import C26
+    C26.flags_rule(ctx, prefix='C14-DBKEY', flags=('is_unique',))      # ... and a unique column carries UNIQUE in the CREATE TABLE text
     # the last line of defence is the database: every declared key of an entity (entity._indexes_, primary key aside) becomes an index with
     # is_unique=index.is_unique in generate_mapping -- the loop over the declared keys skips nothing but the primary key
     gm = repo.fn('pony.orm.core', 'Database.generate_mapping'); g = cg.cfg(gm)
@@ -78,6 +80,7 @@ def run(ctx):
 
 
 MUTANTS = [
+    dict(id='C14-k2', file='pony/orm/dbschema.py', fn='Column.get_sql', old="                if column.is_unique: append(case('UNIQUE'))", new="                if column.is_unique and not column.is_not_null: append(case('UNIQUE'))", expect='C14-DBKEY.column-flag'),
     dict(id='C14-k1', file='pony/orm/core.py', fn='Database.generate_mapping', old="                attrs = index.attrs\n                for attr in attrs: column_names.extend(attr.columns)", new="                attrs = index.attrs\n                if len(attrs) == 1 and attrs[0].index: continue\n                for attr in attrs: column_names.extend(attr.columns)", expect='C14-DBKEY'),
     dict(id='C14-m1', file='pony/orm/core.py', fn='SessionCache.update_simple_index',
          old='            obj2 = cache_index.setdefault(new_val, obj)\n            if obj2 is not obj: throw(CacheIndexError,', new='            obj2 = cache_index[new_val] = obj\n            if obj2 is not obj: throw(CacheIndexError,', expect='C14-GUARD'),
